@@ -122,8 +122,8 @@ class C26(Prop):
                  "the probability bound by subquery is compared with the possible-world reference conditioned on the list")
     rule = ("states = (program, evidence list) pairs with P(list) > 0 whose top-level inference is correct; transitions = "
             "wrapper answers compared; evidence lists: [], [+h], [-h], [+h1,-h2] over the program's ground heads")
-    families = {"quick": [("F3.1", 16), ("F2.2", 8), ("F1.2q", 96), ("F2.3", 48), ("F1.1", 4)],
-                "thorough": [("F3.2", 96), ("F2.3", 48), ("F1.3s", 48), ("F1.2q", 128), ("F3.1", 16), ("F2.2", 8), ("F1.1", 4)]}
+    families = {"quick": [("FSQ", 2), ("F3.1", 16), ("F2.2", 8), ("F1.2q", 96), ("F2.3", 48), ("F1.1", 4)],
+                "thorough": [("FSQ", 2), ("F3.2", 96), ("F2.3", 48), ("F1.3s", 48), ("F1.2q", 128), ("F3.1", 16), ("F2.2", 8), ("F1.1", 4)]}
     budget = {"quick": 300, "thorough": 2400}
 
     def shards(self, tier):
